@@ -63,7 +63,7 @@ func c17GenInstant(rt *rapid.T, interval time.Duration) time.Time {
 
 func TestVerif_C17_Pure(t *testing.T) {
 	acct := vacct.Get("C17")
-	vacct.RapidCheck(t, vacct.N(6000, 600000), func(rt *rapid.T) {
+	vacct.RapidCheck(t, vacct.N(6000, 3000000), func(rt *rapid.T) {
 		interval := rapid.OneOf(rapid.SampledFrom(c17Intervals),
 			rapid.Map(rapid.Int64Range(1, 400*86400), func(s int64) time.Duration { return time.Duration(s) * time.Second })).Draw(rt, "interval")
 		at := c17GenInstant(rt, interval)
@@ -343,7 +343,7 @@ func c17GenDelta(rt *rapid.T, interval time.Duration) time.Duration {
 
 func TestVerif_C17_History(t *testing.T) {
 	acct := vacct.Get("C17")
-	vacct.RapidCheck(t, vacct.N(600, 50000), func(rt *rapid.T) {
+	vacct.RapidCheck(t, vacct.N(600, 400000), func(rt *rapid.T) {
 		interval := rapid.SampledFrom([]time.Duration{time.Second, 2 * time.Second, time.Minute, time.Hour, 24 * time.Hour}).Draw(rt, "interval")
 		ops := c17GenOps(rt, interval)
 		v, msg, labels, trace := c17History(t, interval, ops)
